@@ -1,0 +1,38 @@
+//! Verification hooks (compiled only with `--cfg bs_verif`).
+//!
+//! Named schedule points and a generic event sink.  Both are no-ops unless a
+//! controller is installed by a test harness.
+
+use std::sync::{Arc, RwLock};
+
+type SchedFn = dyn Fn(&'static str) + Send + Sync;
+type EventFn = dyn Fn(&'static str, &str) + Send + Sync;
+
+static SCHED: RwLock<Option<Arc<SchedFn>>> = RwLock::new(None);
+static EVENT: RwLock<Option<Arc<EventFn>>> = RwLock::new(None);
+
+/// Install (or remove) the schedule-point controller.
+pub fn set_sched_controller(f: Option<Arc<SchedFn>>) {
+    *SCHED.write().unwrap() = f;
+}
+
+/// Install (or remove) the event sink.
+pub fn set_event_sink(f: Option<Arc<EventFn>>) {
+    *EVENT.write().unwrap() = f;
+}
+
+/// A named point at which a harness may hold the calling thread.
+pub fn sched_point(name: &'static str) {
+    let f = SCHED.read().unwrap().clone();
+    if let Some(f) = f {
+        f(name)
+    }
+}
+
+/// Report `(site, payload)` to the harness.
+pub fn event(site: &'static str, payload: &str) {
+    let f = EVENT.read().unwrap().clone();
+    if let Some(f) = f {
+        f(site, payload)
+    }
+}
